@@ -22,10 +22,11 @@ type PolSpec struct {
 	Allowed  []string `json:"allowed,omitempty"`
 	RL       bool     `json:"rl,omitempty"`          // rate limiting with per-IP burst 1, 1 request/s
 	RLGen    bool     `json:"rl_generous,omitempty"` // rate limiting on, generous request limits, tight per-operation limits (mount, readdir, large I/O)
+	MaxFile  int64    `json:"max_file,omitempty"`    // MaxFileSize (values far above anything the workload writes: only the policy value changes)
 }
 
 func (p PolSpec) policy() absnfs.PolicyOptions {
-	po := absnfs.PolicyOptions{ReadOnly: p.ReadOnly, Secure: p.Secure, AllowedIPs: p.Allowed, EnableRateLimiting: p.RL || p.RLGen}
+	po := absnfs.PolicyOptions{ReadOnly: p.ReadOnly, Secure: p.Secure, AllowedIPs: p.Allowed, EnableRateLimiting: p.RL || p.RLGen, MaxFileSize: p.MaxFile}
 	if p.RLGen && !p.RL {
 		po.RateLimitConfig = &absnfs.RateLimiterConfig{GlobalRequestsPerSecond: 1000000, PerIPRequestsPerSecond: 100000, PerIPBurstSize: 100000,
 			PerConnectionRequestsPerSecond: 0, ReadLargeOpsPerSecond: 1, WriteLargeOpsPerSecond: 1, ReaddirOpsPerSecond: 1, MountOpsPerMinute: 1, CleanupInterval: time.Hour}
@@ -204,7 +205,7 @@ func runC16(t *testing.T, scAny any, trace bool) *Outcome {
 				if a.ViaExport {
 					eo := w.NFS.GetExportOptions()
 					p := a.Pol.policy()
-					eo.ReadOnly, eo.Secure, eo.AllowedIPs, eo.EnableRateLimiting, eo.RateLimitConfig = p.ReadOnly, p.Secure, p.AllowedIPs, p.EnableRateLimiting, p.RateLimitConfig
+					eo.ReadOnly, eo.Secure, eo.AllowedIPs, eo.EnableRateLimiting, eo.RateLimitConfig, eo.MaxFileSize = p.ReadOnly, p.Secure, p.AllowedIPs, p.EnableRateLimiting, p.RateLimitConfig, p.MaxFileSize
 					err = w.NFS.UpdateExportOptions(eo)
 				} else {
 					err = w.NFS.UpdatePolicyOptions(a.Pol.policy())
@@ -467,7 +468,17 @@ func genC16(r *simrt.Rand, tier string) any {
 	at := 0
 	for a := 0; a < na; a++ {
 		at += []int{0, 100, 2000, 50000, 400000}[r.Int(5)]
-		sc.Admin = append(sc.Admin, C16Admin{AtUs: at, Pol: genPol(r, true), ViaExport: r.Pct(40)})
+		pol := genPol(r, true)
+		if r.Pct(25) {
+			// an update that changes nothing a request is ever refused for (only MaxFileSize, far above the
+			// workload): it still has to drain the requests admitted before it
+			pol = sc.Init
+			if a > 0 {
+				pol = sc.Admin[a-1].Pol
+			}
+			pol.MaxFile = int64(1<<30 + r.Int(1<<20))
+		}
+		sc.Admin = append(sc.Admin, C16Admin{AtUs: at, Pol: pol, ViaExport: r.Pct(40)})
 	}
 	// stall backend calls so that updates land inside requests
 	ns := r.Int(4)
@@ -542,7 +553,7 @@ func shrinkC16(scAny any) []any {
 
 func init() {
 	Register(&Prop{ID: "C16", Level: "exploration", Race: true,
-		Rule: "one case = 2-4 clients on their own connections (opened before or after updates, from addresses inside/outside the allow-lists and ports either side of 1024) issuing 2-8 of NULL/GETATTR/LOOKUP/READ/WRITE/CREATE/REMOVE/3-call bursts with pauses, an admin issuing 1-3 UpdatePolicyOptions/UpdateExportOptions with drawn ReadOnly/AllowedIPs/Secure/rate-limiting values at drawn instants, 0-3 backend calls stalled for 1 ms-40 s (shorter and longer than the request timeout), 1-3 workers, every lock/channel/select/network/backend interleaving decided by the seeded scheduler, also built with -race; monitors: (I1) all backend calls of one request goroutine saw one live policy pointer, (I2) when an update returns no backend call begun under an older policy is in progress, (I3) each reply is the verdict of a policy that was possibly in force between send and receive (ROFS, MSG_DENIED for excluded address/port, rate limiting incl. on connections opened before the update), (I4) drain-window replies are counted (their shape is C14's business), (I5) the update returns once stalls end (bounded liveness by quiescence), no panic; non-trivial = a request hit the drain window AND an update was issued while a backend call was parked; distinct by event digest",
+		Rule: "one case = 2-4 clients on their own connections (opened before or after updates, from addresses inside/outside the allow-lists and ports either side of 1024) issuing 2-8 of NULL/GETATTR/LOOKUP/READ/WRITE/CREATE/REMOVE/3-call bursts with pauses, an admin issuing 1-3 UpdatePolicyOptions/UpdateExportOptions with drawn ReadOnly/AllowedIPs/Secure/rate-limiting values (a quarter of the updates change only MaxFileSize, which no request of the workload is refused for) at drawn instants, 0-3 backend calls stalled for 1 ms-40 s (shorter and longer than the request timeout), 1-3 workers, every lock/channel/select/network/backend interleaving decided by the seeded scheduler, also built with -race; monitors: (I1) all backend calls of one request goroutine saw one live policy pointer, (I2) when an update returns no backend call begun under an older policy is in progress, (I3) each reply is the verdict of a policy that was possibly in force between send and receive (ROFS, MSG_DENIED for excluded address/port, rate limiting incl. on connections opened before the update), (I4) drain-window replies are counted (their shape is C14's business), (I5) the update returns once stalls end (bounded liveness by quiescence), no panic; non-trivial = a request hit the drain window AND an update was issued while a backend call was parked; distinct by event digest",
 		Gen:  genC16, New: func() any { return &C16Scn{} }, Run: runC16, Shrink: shrinkC16,
 		Real:    []string{"UpdatePolicyOptions", "UpdateExportOptions", "HandleCall (TryRLock admission, per-request goroutine, timeout)", "connection loop incl. rate limiting", "worker pool", "all procedure handlers"},
 		Stubbed: seqStubbed})
